@@ -4,6 +4,7 @@ import (
 	"bufio"
 	"fmt"
 	"io"
+	"os"
 	"os/exec"
 	"strings"
 	"time"
@@ -11,20 +12,22 @@ import (
 
 // Solver wraps one long-lived `z3 -in` process.
 type Solver struct {
-	cmd     *exec.Cmd
-	in      io.WriteCloser
-	out     *bufio.Reader
-	buf     strings.Builder
-	Queries int
-	Sat     int
-	Unsat   int
-	Unknown int
-	Errors  int
-	Dur     time.Duration
-	LastErr string
-	depth   int
-	bin     string
-	log     io.Writer
+	cmd      *exec.Cmd
+	in       io.WriteCloser
+	out      *bufio.Reader
+	buf      strings.Builder
+	Queries  int
+	Sat      int
+	Unsat    int
+	Unknown  int
+	Errors   int
+	Dur      time.Duration
+	ModelDur time.Duration
+	Models   int
+	LastErr  string
+	depth    int
+	bin      string
+	log      io.Writer
 }
 
 func NewSolver(bin string, args ...string) (*Solver, error) {
@@ -45,7 +48,12 @@ func NewSolver(bin string, args ...string) (*Solver, error) {
 		return nil, err
 	}
 	s := &Solver{cmd: cmd, in: in, out: bufio.NewReaderSize(out, 1<<16), bin: bin}
-	s.send("(set-option :timeout 20000)\n")
+	if lf := os.Getenv("GOSYMX_SOLVER_LOG"); lf != "" {
+		if f, err := os.OpenFile(lf, os.O_CREATE|os.O_WRONLY|os.O_TRUNC, 0644); err == nil {
+			s.log = f
+		}
+	}
+	s.send("(set-option :rlimit 40000000)\n")
 	return s, nil
 }
 
@@ -74,6 +82,12 @@ func (s *Solver) flush() {
 
 func (s *Solver) Push() { s.send("(push 1)\n"); s.depth++ }
 func (s *Solver) Pop()  { s.send("(pop 1)\n"); s.depth-- }
+
+// BeginPath / EndPath bracket one path.  The solver is reset rather than popped:
+// z3 keeps per-process symbol tables that make get-value slower and slower when
+// thousands of scopes with fresh definitions are pushed and popped.
+func (s *Solver) BeginPath() {}
+func (s *Solver) EndPath()   { s.send("(reset)\n(set-option :rlimit 40000000)\n") }
 
 // define makes sure t and all its sub-terms are declared/defined.
 func (s *Solver) define(t *Term) {
@@ -180,6 +194,8 @@ func (s *Solver) values(vars []*Term) (map[string]uint64, error) {
 	}
 	sb.WriteString("))\n")
 	s.send(sb.String())
+	tv0 := time.Now()
+	defer func() { s.ModelDur += time.Since(tv0); s.Models++ }()
 	s.flush()
 	// read a balanced s-expression
 	depth := 0
